@@ -775,6 +775,33 @@ func TestC10(t *testing.T) {
 			}
 		}
 	}
+	// fixed instance: a block-fetch server serving one range of 40 blocks of 200 kB
+	// back to back over an unfragmented connection to a fast client
+	{
+		fc := &c10BFCase{PlanA: &rawpeer.SeqPlan{}, PlanB: &rawpeer.SeqPlan{}, planA: "unfragmented", planB: "unfragmented",
+			Delays: []int{0}, Volume: 8 << 20, Procs: runtime.GOMAXPROCS(0)}
+		var sizes []int
+		var seeds []uint64
+		for i := 0; i < 40; i++ {
+			sizes = append(sizes, 200000)
+			seeds = append(seeds, uint64(i)+1)
+		}
+		fc.Batches, fc.Seeds = [][]int{sizes}, [][]uint64{seeds}
+		fails, st, hit := runC10BFCase(fc)
+		rec.Eval()
+		rec.Class("fixed_blockfetch_bulk")
+		if hit {
+			rec.Class("blockfetch_send_queue_limit_hit")
+		}
+		if st.crossing || st.sharing || hit {
+			rec.NonTrivial("fixed block-fetch bulk 40x200000", fc.describe())
+		}
+		for _, f := range fails {
+			rec.Violation(f.key, f.what, f.cs)
+		}
+		c10Failed.Store(false) // a listed finding must not shorten the patience of the generated cases
+	}
+
 	rec.Check(func(rt *rapid.T) {
 		if rapid.IntRange(0, 4).Draw(rt, "familyBlockFetch") == 0 {
 			c := genC10BFCase(rt, rec.Thorough())
@@ -803,6 +830,7 @@ func TestC10(t *testing.T) {
 			for _, f := range fails {
 				rec.Fail(rt, f.key, f.what, f.cs)
 			}
+			c10Failed.Store(false) // reached only if every failure was a listed finding
 			return
 		}
 		rec.Class("family_blob")
@@ -854,5 +882,6 @@ func TestC10(t *testing.T) {
 		for _, f := range fails {
 			rec.Fail(rt, f.key, f.what, f.cs)
 		}
+		c10Failed.Store(false) // reached only if every failure was a listed finding
 	})
 }
